@@ -210,6 +210,8 @@ pub struct Packer<BE: DecryptWriteBackend> {
     raw_packer: Arc<RwLock<RawPacker<BE>>>,
     /// The shared indexer containing the backend.
     indexer: SharedIndexer<BE>,
+    /// The blob type this packer packs (the indexer tracks blobs per type).
+    blob_type: BlobType,
     /// The sender to send blobs to the raw packer.
     sender: Sender<(Bytes, BlobId)>,
     /// The receiver to receive the status from the raw packer.
@@ -254,6 +256,7 @@ impl<BE: DecryptWriteBackend> Packer<BE> {
         let packer = Self {
             raw_packer: raw_packer.clone(),
             indexer: indexer.clone(),
+            blob_type,
             sender: tx,
             finish: finish_rx,
         };
@@ -264,7 +267,7 @@ impl<BE: DecryptWriteBackend> Packer<BE> {
                     .into_iter()
                     .readahead_scoped(scope)
                     // early check if id is already contained
-                    .filter(|(_, id)| !indexer.read().unwrap().has(id))
+                    .filter(|(_, id)| !indexer.read().unwrap().has(blob_type, id))
                     .filter(|(_, id)| !raw_packer.read().unwrap().has(id))
                     .readahead_scoped(scope)
                     .parallel_map_scoped(scope, |(data, id): (Bytes, BlobId)| {
@@ -276,7 +279,9 @@ impl<BE: DecryptWriteBackend> Packer<BE> {
                     // TODO: We may still save duplicate blobs - the indexer is only updated when the packfile write has completed
                     .filter(|res| {
                         res.as_ref()
-                            .map_or_else(|_| true, |(_, id, _, _)| !indexer.read().unwrap().has(id))
+                            .map_or_else(|_| true, |(_, id, _, _)| {
+                                !indexer.read().unwrap().has(blob_type, id)
+                            })
                     })
                     .try_for_each(|item: RusticResult<_>| -> RusticResult<()> {
                         let (data, id, data_len, ul) = item?;
@@ -338,7 +343,7 @@ impl<BE: DecryptWriteBackend> Packer<BE> {
         uncompressed_length: Option<NonZeroU32>,
     ) -> RusticResult<()> {
         // only add if this blob is not present
-        if self.indexer.read().unwrap().has(id) {
+        if self.indexer.read().unwrap().has(self.blob_type, id) {
             Ok(())
         } else {
             self.raw_packer
